@@ -318,12 +318,12 @@ class RankResult(ResultABC):
         """Ranking whitout ties.
 
         if the ranking has ties this property assigns unique and consecutive
-        values in the ranking. This method only assigns the values using the
-        command ``numpy.argsort(rank_) + 1``.
+        values in the ranking. Ties are broken by order of appearance.
 
         """
         if self.has_ties_:
-            return np.argsort(self.rank_) + 1
+            order = np.argsort(self.rank_, kind="stable")
+            return np.argsort(order, kind="stable") + 1
         return self.rank_
 
     def to_series(self, *, untied=False):
